@@ -6,6 +6,13 @@ Translated to Lean state transformers (harness/pystate.py on top of pylean):
   add_custom, remove_custom, update_listeners (the argument handed to the listeners, and whether it is computed
   under the update lock), TriggerHandler.new_config, LongPoll.poll (hash sent in the request; NO_CHANGE / else
   dispatch).
+Also translated, statement by statement (the poll thread, C12 "polling continues"):
+  LongPoll.poll as a whole (`pollOnce`: request, `stub.poll` which may raise or hand back anything, the attribute read
+  on the answer, the dispatch, the evaluation order `convert_response` before `update_new_config`, the submission of the
+  apply task which a closed task handler refuses AFTER hash and configuration were stored — `updateNewConfigStore` /
+  `triggerUpdateE`), RepeatedTimer._target as a guard skeleton (`timerSkeleton`: `_time` and `event.wait` evaluated
+  outside the `try`, the function call inside it), RepeatedTimer.stop (`timerStopSetsEvent`, `timerStopJoins`),
+  LongPoll.shutdown (`pollShutdownStopsTimer`).
 Extracted as checked facts (constants the model is parametrised by):
   convert_response skips a tracepoint `build_trigger` cannot interpret; RepeatedTimer._target's loop survives
   `Exception`; RepeatedTimer.__init__ coerces the interval with float(); LongPoll.start polls `self.poll` with
@@ -16,8 +23,9 @@ Checked shapes (Untranslatable when gone): Deep.register_tracepoint -> add_custo
 """
 import ast
 
-from pylean import Untranslatable, load, find_def, same_shape, header, lean_const
+from pylean import Untranslatable, load, find_def, same_shape, header, lean_const, lean_str
 from pystate import StateTranslator, Field, strip_doc, catch_classes, has_raise, lean_bool
+import skeleton
 
 OUT = 'DeepModel/Extracted/ConfigSvc.lean'
 TPCS = 'src/deep/config/tracepoint_config.py'
@@ -47,6 +55,7 @@ PRELUDE = '''
 set_option linter.unusedVariables false
 
 namespace Extracted.ConfigSvc
+open Guard (Stmt Catch)
 
 /-- one tracepoint as far as C12/C13 distinguish them: where it is, and a tag standing for everything else
     it was given (args, watches, metrics) -/
@@ -465,6 +474,133 @@ def gen_timer(utils, poll):
             f'def initialPollGuarded : Bool := {lean_bool(guarded)}\n')
 
 
+def gen_store(tp):
+    """`update_new_config` split at its last statement, the submission of the apply task: everything before it is a
+    plain store (`updateNewConfigStore`), the submission itself may be refused by a closed task handler."""
+    f = find_def(tp, 'TracepointConfigService.update_new_config')
+    body = strip_doc(f.body)
+    if not body or not (isinstance(body[-1], ast.Expr) and isinstance(body[-1].value, ast.Call)
+                        and ast.unparse(body[-1].value.func) == 'self.__trigger_update'):
+        raise Untranslatable('update_new_config does not end with the submission of the apply task')
+    for s in body[:-1]:
+        for n in ast.walk(s):
+            if isinstance(n, ast.Call):
+                raise Untranslatable('update_new_config: call before the submission: ' + ast.unparse(n)[:60])
+    return ('/-- `update_new_config` up to (not including) its last statement `self.__trigger_update(…)` -/\n'
+            + st_tr().method(f, 'def updateNewConfigStore (st : Svc) (ts : Int) (new_hash : String) '
+                                '(new_config : List Trig) : Svc', body=body[:-1])
+            + '\n/-- `__trigger_update` when `submit_task` may refuse (`refused` = the exception a closed task handler\n'
+              '    raises, none = the task is accepted): nothing is queued, the exception leaves the caller -/\n'
+              'def triggerUpdateE (st : Svc) (refused : Option Py.Exn) : Svc × Option Py.Exn :=\n'
+              '  match refused with\n  | none => (triggerUpdate st, none)\n  | some e => (st, some e)\n\n'
+              '/-- `update_new_config` with that submission -/\n'
+              'def updateNewConfigE (st : Svc) (refused : Option Py.Exn) (ts : Int) (new_hash : String) '
+              '(new_config : List Trig) : Svc × Option Py.Exn :=\n'
+              '  triggerUpdateE (updateNewConfigStore st ts new_hash new_config) refused\n')
+
+
+POLL_ARGS = {'response.ts_nanos': 'ts', 'response.current_hash': 'h'}
+POLL_TESTS = {'response.response_type == ResponseType.NO_CHANGE': '(rt == RespType.noChange)',
+              'response.response_type == ResponseType.UPDATE': '(rt == RespType.update)'}
+
+
+def gen_poll_program(poll):
+    """LongPoll.poll statement by statement (`pollOnce`): how the call ends for every behaviour of the stub."""
+    f = find_def(poll, 'LongPoll.poll')
+    body = strip_doc(f.body)
+    if len(body) != 4:
+        raise Untranslatable('LongPoll.poll: stub / request / response / dispatch expected, got %d statements' % len(body))
+    s_stub, s_req, s_resp, disp = body
+    if not (isinstance(s_stub, ast.Assign) and ast.unparse(s_stub) == 'stub = PollConfigStub(self.grpc.channel)'):
+        raise Untranslatable('LongPoll.poll: ' + ast.unparse(s_stub)[:80])
+    if not (isinstance(s_req, ast.Assign) and ast.unparse(s_req.targets[0]) == 'request'
+            and isinstance(s_req.value, ast.Call) and ast.unparse(s_req.value.func) == 'PollRequest'):
+        raise Untranslatable('LongPoll.poll: ' + ast.unparse(s_req)[:80])
+    if not (isinstance(s_resp, ast.Assign) and ast.unparse(s_resp.targets[0]) == 'response'
+            and isinstance(s_resp.value, ast.Call) and ast.unparse(s_resp.value.func) == 'stub.poll'):
+        raise Untranslatable('LongPoll.poll: ' + ast.unparse(s_resp)[:80])
+    if not isinstance(disp, ast.If):
+        raise Untranslatable('LongPoll.poll: the last statement is not the dispatch')
+    for n in ast.walk(f):
+        if isinstance(n, (ast.Try, ast.While, ast.For, ast.With)):
+            raise Untranslatable('LongPoll.poll contains a try / loop / with the translation does not know')
+
+    def arm(stmts, ind):
+        pad = ' ' * ind
+        real = [x for x in stmts if not (isinstance(x, ast.Expr) and isinstance(x.value, ast.Call)
+                                         and ast.unparse(x.value.func).startswith('logging.'))]
+        real = [x for x in real if not isinstance(x, ast.Pass)]
+        if not real:
+            return pad + '(st, none)'
+        if len(real) == 1 and isinstance(real[0], ast.If):
+            i = real[0]
+            t = ast.unparse(i.test)
+            if t not in POLL_TESTS:
+                raise Untranslatable('LongPoll.poll dispatches on ' + t)
+            return (f'{pad}if {POLL_TESTS[t]} then\n{arm(list(i.body), ind + 2)}\n{pad}else\n'
+                    f'{arm(list(i.orelse), ind + 2)}')
+        if len(real) == 1 and isinstance(real[0], ast.Expr) and isinstance(real[0].value, ast.Call):
+            c = real[0].value
+            fn = ast.unparse(c.func)
+            args = [ast.unparse(a) for a in c.args]
+            if c.keywords:
+                raise Untranslatable('LongPoll.poll: keyword arguments in ' + ast.unparse(c)[:80])
+            if fn == 'self.config.tracepoints.update_no_change' and len(args) == 1 and args[0] in POLL_ARGS:
+                return f'{pad}(updateNoChange st {POLL_ARGS[args[0]]}, none)'
+            if fn == 'self.config.tracepoints.update_new_config' and len(args) == 3 \
+                    and args[2] == 'convert_response(response.response)' and args[0] in POLL_ARGS \
+                    and args[1] in POLL_ARGS:
+                # arguments are evaluated before the call: a conversion that raises leaves everything as it was
+                return (f'{pad}match cfg with\n{pad}| none => (st, some Py.Exn.exc)\n'
+                        f'{pad}| some cfg => updateNewConfigE st refused {POLL_ARGS[args[0]]} {POLL_ARGS[args[1]]} cfg')
+        raise Untranslatable('LongPoll.poll: arm outside the subset: ' + '; '.join(ast.unparse(x)[:60] for x in real))
+    reads = ast.unparse(disp.test)
+    if not reads.startswith('response.'):
+        raise Untranslatable('LongPoll.poll: the dispatch does not start by reading the answer')
+    return ('/-- what `stub.poll(request, …)` does: raises, hands back something that is not a PollResponse (reading\n'
+            '    `response_type` off it raises AttributeError, an `Exception`), or an answer -/\n'
+            'inductive StubOut where\n  | raises (e : Py.Exn)\n  | garbage\n'
+            '  | answer (rt : RespType) (ts : Int) (h : String)\nderiving Repr, DecidableEq\n\n'
+            '/-- `LongPoll.poll`, statement by statement: the state it leaves and the exception that leaves it.\n'
+            '    The request (carrying `requestHash st`) is built and sent first; `cfg` is\n'
+            '    `convert_response(response.response)` (none = it raises an `Exception`), evaluated only in the arm that\n'
+            '    uses it; `refused` is what `submit_task` raises when the task handler is closed. -/\n'
+            'def pollOnce (st : Svc) (refused : Option Py.Exn) (out : StubOut) (cfg : Option (List Trig)) : '
+            'Svc × Option Py.Exn :=\n'
+            '  match out with\n  | .raises e => (st, some e)\n  | .garbage => (st, some Py.Exn.exc)\n'
+            '  | .answer rt ts h =>\n' + arm([disp], 4) + '\n')
+
+
+def gen_timer_skeleton(utils, poll):
+    ctx = skeleton.Context.for_repo()
+    sk = ctx.skeleton(UTILS, 'RepeatedTimer._target')
+    t = find_def(utils, 'RepeatedTimer._target')
+    w = strip_doc(t.body)[0]
+    stop = [ast.unparse(s) for s in strip_doc(find_def(utils, 'RepeatedTimer.stop').body)]
+    sets = 'self.event.set()' in stop
+    joins = 'self.thread.join()' in stop and sets and stop.index('self.event.set()') < stop.index('self.thread.join()')
+    start = [ast.unparse(s) for s in strip_doc(find_def(utils, 'RepeatedTimer.start').body)]
+    if start != ['self.thread.start()']:
+        raise Untranslatable('RepeatedTimer.start changed: %s' % start)
+    init = [ast.unparse(s) for s in strip_doc(find_def(utils, 'RepeatedTimer.__init__').body)]
+    if 'self.thread = Thread(target=self._target, name=self.name)' not in init or 'self.event = Event()' not in init:
+        raise Untranslatable('RepeatedTimer.__init__: thread / event changed')
+    sd = find_def(poll, 'LongPoll.shutdown')
+    sdb = strip_doc(sd.body)
+    stops = (len(sdb) >= 1 and isinstance(sdb[0], ast.If) and ast.unparse(sdb[0].test) == 'self.timer'
+             and [ast.unparse(x) for x in sdb[0].body] == ['self.timer.stop()'] and not sdb[0].orelse)
+    return ('/-- `RepeatedTimer._target` as a guard skeleton (harness/skeleton.py): the calls of the loop test come first\n'
+            '    in the loop body (and once more after the loop, for the test that ends it) -/\n'
+            'def timerSkeleton : Guard.Stmt :=\n' + skeleton.to_lean(sk, 2) + '\n\n'
+            '/-- source text of the loop test -/\n'
+            f'def timerLoopId : String := {lean_str(ast.unparse(w.test))}\n\n'
+            '/-- `RepeatedTimer.stop`: sets the event the loop test waits on, then joins the thread -/\n'
+            f'def timerStopSetsEvent : Bool := {lean_bool(sets)}\n'
+            f'def timerStopJoins : Bool := {lean_bool(joins)}\n\n'
+            '/-- `LongPoll.shutdown` stops the timer it started -/\n'
+            f'def pollShutdownStopsTimer : Bool := {lean_bool(stops)}\n')
+
+
 def check_api(deep, cfgsvc, tp):
     reg = find_def(deep, 'Deep.register_tracepoint')
     tail = [ast.unparse(s) for s in reg.body[-2:]]
@@ -494,7 +630,8 @@ def generate():
     utils, grpc, cfgsvc = load(UTILS), load(GRPC), load(CFGSVC)
     check_api(deep, cfgsvc, tp)
     parts = [header('tracepoint configuration service, poll dispatch, update listener, poll timer',
-                    [TPCS, DEEP, POLL, TH, UTILS, GRPC, CFGSVC]), PRELUDE]
+                    [TPCS, DEEP, POLL, TH, UTILS, GRPC, CFGSVC]).replace(
+        'import DeepModel.Py\n', 'import DeepModel.Py\nimport DeepModel.Model.Guard\n'), PRELUDE]
     parts.append(gen_init(tp))
     parts.append(gen_trigger_update(tp))
     parts.append('/-- `update_no_change` -/\n' + st_tr().method(
@@ -510,5 +647,8 @@ def generate():
     parts.append(gen_poll(poll, tp))
     parts.append(gen_convert(grpc))
     parts.append(gen_timer(utils, poll))
+    parts.append(gen_store(tp))
+    parts.append(gen_poll_program(poll))
+    parts.append(gen_timer_skeleton(utils, poll))
     parts.append('end Extracted.ConfigSvc\n')
     return '\n'.join(parts)
